@@ -17,6 +17,8 @@ import traceback
 
 ROOT = os.path.dirname(os.path.dirname(os.path.abspath(__file__)))
 sys.path.insert(0, ROOT)
+# the code under test: /repo's working tree (VF_REPO points a run at a scratch worktree instead, e.g. for seeded changes)
+sys.path.insert(0, os.environ.get("VF_REPO", "/repo") + "/src")
 os.environ.setdefault("PYTHONHASHSEED", "0")
 
 from vf import evidence, findings  # noqa: E402
